@@ -46,7 +46,8 @@ func (p Policy) Judge(q *Parsed) Verdict {
 			return
 		}
 		if len(opt) != len(got) {
-			illFormed = true
+			// a non-empty expectation of another size can never equal the quote's field: the quote misses it
+			missed = true
 			return
 		}
 		if !bytes.Equal(opt, got) {
@@ -83,11 +84,14 @@ func (p Policy) Judge(q *Parsed) Verdict {
 			}
 		}
 		switch {
-		case anyBadLen || !allNonEmpty:
-			// a wrongly sized or empty entry: the statement only speaks about sets of non-empty values
+		case !allNonEmpty:
+			// an empty entry: the statement only speaks about sets of non-empty values
 			illFormed = true
 		case !anyMatch:
+			// a set of non-empty values (of whatever size) none of which is the quote's MR_TD
 			missed = true
+		case anyBadLen:
+			illFormed = true
 		}
 	}
 	if uint32(binary.LittleEndian.Uint16(h[10:12])) < p.MinQeSvn {
